@@ -14,7 +14,7 @@ const NUMBERS: &[&str] = &[
     // more than 14 significant digits, few of them non-zero (%.14g rounds them away)
     "0.30000000000000004", "1.0000000000000002", "100.00000000000001", "123456789.00000001", "99999999999999.99",
 ];
-const STRINGS: &[&str] = &["\"\"", "\"a\"", "\"b\"", "\"1\"", "\"10\"", "\"9\"", "\" 1 \"", "\"0x10\"", "\"1e2\"", "\"1_0\"", "\"0b1\"", "\"abc\"", "\"\\xff\"", "\"-1\"", "\"- 1\"", "\"1 2\"",
+const STRINGS: &[&str] = &["\"\"", "\"a\"", "\"b\"", "\"1\"", "\"10\"", "\"9\"", "\" 1 \"", "\"0x10\"", "\"1e2\"", "\"1_0\"", "\"0b1\"", "\"abc\"", "\"\\xff\"", "\"-1\"", "\"- 1\"", "\"1 2\"", "\"0x1p4\"", "\"0x1p64\"", "\"0xffp60\"",
     // escapes directly followed by a digit / hex digit
     "\"\\0101\"", "\"\\0971\"", "\"\\x411\"", "\"\\u{41}1\"", "\"a\\z  1\"", "\"\\1\\02\\0033\"", "'\\65\\066'"];
 const OPAQUE: &[&str] = &["id", "id.f", "id[1]", "id()", "...", "{}", "function() end", "id:m()", "(id())", "(...)"];
